@@ -186,7 +186,7 @@ class ProgGen(object):
             extra.append(r.choice(["<t>", "p.<t>"]))
         if r.random() < o.get("p_reserved_tag", 0.0):
             # documented special placeholders in outline tags (rendered per row)
-            extra.append(r.choice(["r<row.index>", "r<examples.index>", "q<row.id>"]))
+            extra.append(r.choice(["r<row.index>", "r<examples.index>", "q<row.id>", "n<examples.name>"]))
         if r.random() < o.get("p_unknown_param_tag", 0.15):
             # a tag whose placeholder is not a column of (all) the examples tables: dropped for those rows -- the other tags stay
             extra.append(r.choice(["u.<nosuch>", "<nosuch>.<t>", "req.<req>"]))
@@ -240,6 +240,11 @@ class ProgGen(object):
             if nr and r.random() < 0.3:
                 # scenarios before rules is the usual layout; sometimes only rules
                 items = [it for it in items if it["kind"] == "rule"] or items
+            if r.random() < o.get("p_empty_rule", 0.0):
+                # a Rule that has no scenario yet (a heading and tags only) next to the others
+                rname = "%sR%d" % (prefix, self.ids.next())
+                items.insert(r.randrange(len(items) + 1) if all(it["kind"] == "rule" for it in items) else len(items),
+                             {"kind": "rule", "tags": self.tags(), "name": rname, "desc": [], "background": None, "items": []})
         return items
 
     def feature(self, i):
@@ -296,7 +301,7 @@ def iter_scenario_instances(feature):
                         name = "%s -- @%s %s" % (it["name"], rid, ex.get("name", ""))
                         tags = []
                         for t in it["tags"]:
-                            reserved = {"row.index": str(ri + 1), "examples.index": str(ei + 1), "row.id": rid}
+                            reserved = {"row.index": str(ri + 1), "examples.index": str(ei + 1), "row.id": rid, "examples.name": ex.get("name", "")}
                             t2 = substitute(t, ex["header"], row, reserved) if ("<" in t and ">" in t) else t
                             if "<" in t2 and ">" in t2:
                                 continue
